@@ -1,12 +1,138 @@
 (* C08 — FLV output is valid FLV and carries the source frames faithfully.
-   Statements only; proofs are in Proofs/C08FlvProofs.v. *)
+   Statements only; proofs are in Proofs/C08FlvProofs.v and Proofs/C08Amf0Proofs.v.
+   [flv_bytes c fs k t0] is what a client receives from flv.NewMuxer + flv.Writer for stream
+   configuration [c] and frame list [fs] when it joins at media tag [k] (k = 0: from the start);
+   [parse_flv], [parse_video], [parse_audio], [parse_script], [parse_avcc], [parse_hvcc] are the
+   independent readers; [flv_ok] is the oracle bin/check applies to the implementation's bytes. *)
 From Coq Require Import ZArith List Bool.
-From V Require Import Bytes C08Amf0 C08Flv C08FlvProofs.
+From V Require Import Bytes C08Amf0 C08Flv C08Amf0Proofs C08FlvProofs.
 Import ListNotations.
 Open Scope Z_scope.
+
+(* the writer's output parses, for every tag list: header flags as given, and the client sees
+   exactly the tags written, in order, with the rebased timestamps *)
+Theorem flv_stream_parses : forall flags l,
+  (flags = 4 \/ flags = 5) -> forallb tag_wf l = true ->
+  parse_flv (flv_write flags l) = Some (flags, written w_init l).
+Proof. exact parse_flv_write. Qed.
+Print Assumptions flv_stream_parses.
+
+(* what "parses" means: each tag is an 11-byte header whose DataSize is the payload length and
+   whose StreamID is 0, the payload, and a PreviousTagSize equal to 11 + payload length *)
+Theorem flv_parse_meaning : forall fuel s p ps,
+  parse_tags fuel s = Some (p :: ps) ->
+  exists hdr sz rest,
+    s = hdr ++ p_data p ++ sz ++ rest /\ length hdr = 11%nat /\ length sz = 4%nat /\
+    nth 0 hdr 0 = p_type p /\
+    be_decode (firstn 3 (skipn 1 hdr)) = zlen (p_data p) /\
+    be_decode sz = 11 + zlen (p_data p) /\
+    be_decode (firstn 3 (skipn 8 hdr)) = 0 /\
+    parse_tags (pred fuel) rest = Some ps.
+Proof. exact parse_tags_meaning_lemma. Qed.
+Print Assumptions flv_parse_meaning.
+
+(* metadata, video configuration record built from the stream's SPS/PPS(/VPS), AAC configuration,
+   then exactly one tag per media frame — for every frame list and every join point *)
+Theorem flv_header_order : forall c fs k t0,
+  case_wf c fs k = true -> fs <> [] ->
+  exists m v rest,
+    parse_flv (flv_bytes c fs k t0) = Some (type_flags c, m :: v :: rest) /\
+    meta_ok c m = true /\ vseq_ok c v = true /\
+    (if c_aac c
+     then exists a ps, rest = a :: ps /\ aseq_ok c a = true /\
+                       length ps = length (skipn k (live_frames c fs))
+     else length rest = length (skipn k (live_frames c fs))).
+Proof. exact flv_header_order_lemma. Qed.
+Print Assumptions flv_header_order.
+
+(* the muxer emits exactly one tag per media frame, in order *)
+Theorem flv_one_tag_per_frame : forall c fs,
+  mux_frames c fs = map (media_tag c) (live_frames c fs).
+Proof. exact mux_frames_live. Qed.
+Print Assumptions flv_one_tag_per_frame.
+
+(* a video tag = frame type / codec, packet type 1, composition time, one length-prefixed NAL unit
+   equal to the source unit; composition = pts_ms - dts_ms as SI24 when it fits 24 bits *)
+Theorem flv_video_faithful : forall c f,
+  frame_wf c f = true -> f_kind f = 0 ->
+  let d := ms_of (f_pts f) - ms_of (f_dts f) in
+  t_type (media_tag c f) = 9 /\
+  parse_video (t_data (media_tag c f)) =
+    Some (mkPV (if is_key (c_hevc c) (nth_byte (f_data f) 0) then 1 else 2) (video_codec_id c) 1
+               (si24 (u32 d mod TWO24)) (f_data f)) /\
+  (-8388608 <= d < 8388608 -> si24 (u32 d mod TWO24) = d).
+Proof. exact flv_video_faithful_lemma. Qed.
+Print Assumptions flv_video_faithful.
+
+(* key frame <=> IDR (H.264 type 5) / IRAP (H.265 types 16..21) *)
+Theorem flv_key_h264 : forall b, is_key false b = true <-> b mod 32 = 5.
+Proof. exact is_key_h264. Qed.
+Print Assumptions flv_key_h264.
+Theorem flv_key_h265 : forall b, is_key true b = true <-> 16 <= (b / 2) mod 64 <= 21.
+Proof. exact is_key_h265. Qed.
+Print Assumptions flv_key_h265.
+
+(* an audio tag holds the source AAC frame *)
+Theorem flv_audio_faithful : forall c f,
+  f_kind f <> 0 ->
+  t_type (media_tag c f) = 8 /\
+  parse_audio (t_data (media_tag c f)) = Some (audio_flags c mod 16, 1, f_data f).
+Proof. exact flv_audio_faithful_lemma. Qed.
+Print Assumptions flv_audio_faithful.
+
+(* timestamps: decode time in ms rebased on the client's first media tag; a tag older than
+   the first one gets 0, never a wrapped value (guard: consecutive tags < 2^31 ms apart) *)
+Theorem flv_time_rebased : forall c l,
+  (forall f, In f l -> frame_wf c f = true /\ emits c f = true) ->
+  steps_ok (first_ms l) l = true ->
+  map p_ts (written w_init (map (media_tag c) l)) =
+  map (fun f => u32 (Z.max 0 (frame_ms f - first_ms l))) l.
+Proof. exact flv_time_rebased_lemma. Qed.
+Print Assumptions flv_time_rebased.
+
+Theorem flv_time_older_is_zero : forall t1 t, t <= t1 -> spec_ts t1 t = 0.
+Proof. exact spec_ts_older. Qed.
+Print Assumptions flv_time_older_is_zero.
+Theorem flv_time_later_is_distance : forall t1 t, 0 <= t - t1 < TWO32 -> spec_ts t1 t = t - t1.
+Proof. exact spec_ts_later. Qed.
+Print Assumptions flv_time_later_is_distance.
 
 (* D17: the pre-fix writer arithmetic shows a tag older than the first at ~2^32 ms *)
 Theorem flv_ts_wrap_refuted :
   exists l, option_map (fun r => map p_ts (snd r)) (parse_flv (flv_write_old 5 l)) = Some [0; 4294967286].
 Proof. exact flv_ts_wrap_refuted_lemma. Qed.
 Print Assumptions flv_ts_wrap_refuted.
+
+(* AMF0: the reader inverts the encoder on the value shapes the muxer emits *)
+Theorem amf0_roundtrip : forall name props,
+  zlen name < 65536 -> Z.of_nat (length props) < 4294967296 -> forallb amf_prop_wf props = true ->
+  parse_script (script_enc name props) = Some (name, props).
+Proof. exact amf0_roundtrip_lemma. Qed.
+Print Assumptions amf0_roundtrip.
+
+(* the Number written for an integer field denotes that integer *)
+Theorem amf0_number_of_int : forall n,
+  - 9007199254740992 < n < 9007199254740992 -> f64_to_Z (f64_of_Z n) = Some n.
+Proof. exact f64_roundtrip_lemma. Qed.
+Print Assumptions amf0_number_of_int.
+
+(* the oracle applied to the implementation accepts the model on every well-formed case *)
+Theorem C08_model_passes : forall c fs k t0,
+  case_wf c fs k = true -> flv_ok c fs k (flv_bytes c fs k t0) = true.
+Proof. exact model_passes_lemma. Qed.
+Print Assumptions C08_model_passes.
+
+(* non-vacuity: an H.264 + AAC stream whose second tag is 10 ms older than the key frame the
+   client joins at; the hypotheses hold and the client sees 0, 0, 0 | 0, 0, 40, 13 *)
+Example C08_nonvacuous :
+  let c := mkCfg false [103; 66; 192; 30; 217] [104; 206; 60; 128] [] [] 640 480
+                 4627730092099895296 4647714815446351872 true [18; 16] 44100 16 2 4634204016564240384
+                 [50; 48; 50; 54] in
+  let fs := [mkFrame 0 4294967301000000 4294967341000000 [101; 1; 2; 3];
+             mkFrame 1 4294967291000000 4294967291000000 [33; 16];
+             mkFrame 0 4294967341000000 4294967301000000 [65; 9];
+             mkFrame 1 4294967314000000 4294967314000000 [33; 17]] in
+  case_wf c fs 0 = true /\
+  option_map (fun r => map p_ts (snd r)) (parse_flv (flv_bytes c fs 0 5)) = Some [0; 0; 0; 0; 0; 40; 13] /\
+  flv_ok c fs 0 (flv_bytes c fs 0 5) = true.
+Proof. vm_compute. auto. Qed.
